@@ -36,7 +36,8 @@ def run(module, cfg=None, workers=16, dump=None, simulate=None, depth=None, seed
     res = TLCResult()
     meta = tempfile.mkdtemp(prefix='tlcmeta_')
     cwd = cwd or SPEC_DIR
-    cmd = ['java', '-XX:+UseParallelGC', '-Xmx' + heap, '-Xss64m']      # (deep RECURSIVE operators over long recorded files)
+    cmd = ['java', '-XX:+UseParallelGC', '-Xmx' + heap, '-Xss64m',      # (deep RECURSIVE operators over long recorded files)
+           '-Djava.io.tmpdir=' + meta]                                  # (TLC's own scratch directory goes away with the metadir)
     if dfs_queue:
         cmd.append('-Dtlc2.tool.queue.IStateQueue=StateDeque')
     cmd += ['-cp', JAR, 'tlc2.TLC', '-metadir', meta, '-noGenerateSpecTE',
